@@ -66,15 +66,20 @@ func (a *vAdv) sentType(t uint8) bool {
 
 // The device sends ProveDevice (and so starts depending on the peer) only to a peer
 // that presented a voucher binding to this device and proved the last entry's key.
-func VerifC01_TO2UntilProveDevice() {
+func VerifC01_TO2UntilProveDevice_P256() { vTO2UntilProveDevice(vcP256) }
+func VerifC01_TO2UntilProveDevice_P384() { vTO2UntilProveDevice(vcP384) }
+
+func vTO2UntilProveDevice(kind int) {
 	verif.Bound("C01", "device key P-256/P-384; peer messages ProveOVHdr + 0..1 (quick) / 0..2 (thorough) OVNextEntry; per path at most 2 (quick) / 3 (thorough) structural deviations from the honest shape; all values (header fields, MACs, hashes, keys, nonces, signatures) symbolic; rendezvous blob absent or present; transport stops at ProveDevice")
-	kind := verif.Choose("kind", 2)
+	verif.Expect("accepted")
+	verif.Expect("not accepted")
 	ndev := 0
 	pick := func(name string, n, honest int) int {
 		v := verif.Choose(name, n)
 		if v != honest {
 			ndev++
 		}
+		verif.Assume(ndev <= 2+verif.Tier())
 		return v
 	}
 	n := verif.Choose("nentries", 2+verif.Tier())
@@ -126,12 +131,19 @@ func VerifC01_TO2UntilProveDevice() {
 	}
 	adv := &vAdv{numShift: shifts}
 	signerKind, signer := h.mk, h.mfgPub
+	ownerAfter := []crypto.PublicKey{h.mfgPub} // ownerAfter[k] = owner key after k entries
 	for i := 0; i < n; i++ {
 		e := vwMkEntryR(string(rune('A'+i)), signerKind, signer, true)
 		adv.entries = append(adv.entries, e.tag)
 		signerKind, signer = e.nextKind, e.nextPub
+		ownerAfter = append(ownerAfter, e.nextPub)
 	}
-	lastKind, lastPub := signerKind, signer
+	// the device only ever sees the announced number of entries
+	m := n + numDelta
+	if m > n {
+		m = n
+	}
+	lastKind, lastPub := signerKind, ownerAfter[m]
 	advertised := vcPub(kind, "advertised") // the key the peer advertises and signs with (arbitrary)
 	var claimedNonce protocol.Nonce
 	copy(claimedNonce[:], verif.Bytes("claimednonce", 16))
@@ -144,6 +156,18 @@ func VerifC01_TO2UntilProveDevice() {
 	}
 	sigAlgs := []int64{int64(cose.ES256Alg), int64(cose.ES384Alg), 0}
 	proofSig := verif.Bytes("proofsig", verif.SigLen(advertised))
+	// a well-formed ECDH parameter with symbolic point and random
+	pl, rl := 32, 16
+	if kind == vcP384 {
+		pl, rl = 48, 48
+	}
+	var xA []byte
+	xA = append(xA, byte(pl>>8), byte(pl))
+	xA = append(xA, verif.Bytes("xa_x", pl)...)
+	xA = append(xA, byte(pl>>8), byte(pl))
+	xA = append(xA, verif.Bytes("xa_y", pl)...)
+	xA = append(xA, byte(rl>>8), byte(rl))
+	xA = append(xA, verif.Bytes("xa_r", rl)...)
 	adv.proof = func(hello helloDeviceMsg) cose.Sign1Tag[ovhProof, []byte] {
 		var p cose.Sign1Tag[ovhProof, []byte]
 		p.Protected = cose.HeaderMap{cose.AlgLabel: sigAlgs[algIdx]}
@@ -159,7 +183,7 @@ func VerifC01_TO2UntilProveDevice() {
 			p.Payload = cbor.NewByteWrap(ovhProof{
 				OVH: h.v.Header, NumOVEntries: uint8(n + numDelta), OVHHmac: h.v.Hmac,
 				NonceTO2ProveOV: claimedNonce, SigInfoB: hello.SigInfoA,
-				KeyExchangeA: verif.Bytes("xa", 2), HelloDeviceHash: hdh, MaxOwnerMessageSize: 65535,
+				KeyExchangeA: xA, HelloDeviceHash: hdh, MaxOwnerMessageSize: 65535,
 			})
 		}
 		p.Signature = proofSig
@@ -189,8 +213,8 @@ func VerifC01_TO2UntilProveDevice() {
 	verif.Assert(!panicked, "accepted run does not crash")
 	// ---- Spec01 ----
 	verif.Assert(payloadPresent && hasKeyHdr && hasNonceHdr, "accepted => ProveOVHdr has payload, owner key header and nonce header")
-	verif.Assert(numDelta == 0, "accepted => the device fetched exactly the announced number of entries")
-	for i := range shifts {
+	verif.Assert(numDelta <= 0, "accepted => every announced entry was delivered")
+	for i := range shifts[:m] {
 		verif.Assert(shifts[i] == 0, "accepted => every OVNextEntry echoed the requested index")
 	}
 	hdrEnc := vwMust(cbor.Marshal(&h.hdr))
@@ -202,7 +226,7 @@ func VerifC01_TO2UntilProveDevice() {
 	verif.Assert(verif.BytesEq(h.v.Hmac.Value, verif.HmacOf(mh, secret, hdrEnc)), "accepted => voucher header MAC verifies under the device's secret")
 	mkEnc := vwMust(cbor.Marshal(&h.hdr.ManufacturerKey))
 	verif.Assert(verif.BytesEq(kh.Value, vwHashOf(kh.Algorithm, mkEnc)), "accepted => manufacturer key matches the key hash in the device credential")
-	ov := Voucher{Header: h.v.Header, Hmac: h.v.Hmac, Entries: adv.entries}
+	ov := Voucher{Header: h.v.Header, Hmac: h.v.Hmac, Entries: adv.entries[:m]}
 	verif.Assert(ov.VerifyEntries() == nil, "accepted => the entry chain verifies link by link")
 	verif.Assert(verif.BytesEq(verif.KeyID(advertised), verif.KeyID(lastPub)), "accepted => the advertised owner key is the key of the chain's last entry")
 	_ = lastKind
